@@ -116,8 +116,8 @@ func checkTable(c tableCase) harness.Outcome {
 }
 
 var tableFacet = harness.Register(&harness.Facet[tableCase]{
-	Name: "dop-table",
-	Rule: "finite product: current state of property a (absent; data with value in {1,NaN,-0} x writable x enumerable x configurable; accessor with get in {undefined,F0} x set in {undefined,F5} x enumerable x configurable: 41 states) x object extensible or not x descriptor = shape x enumerable x configurable in {absent,true,false}, shape = generic | value in {absent,1,NaN,-0,+0} x writable in {absent,true,false} | get in {absent,undefined,F0,F2} x set in {absent,undefined,F5,F2} | 4 contradictory data+accessor mixes (34 shapes, 306 descriptors), i.e. 41 x 2 x 306 = 25092 cases; each runs create, [preventExtensions], Object.defineProperty, then an assignment and a delete as behavioural probes, with all observations compared after every step. thorough = the complete product split over the shards (exhaustive); quick = a uniform random sample. non-trivial = the property already exists or the object is not extensible; distinct by (state, descriptor)",
+	Name:  "dop-table",
+	Rule:  "finite product: current state of property a (absent; data with value in {1,NaN,-0} x writable x enumerable x configurable; accessor with get in {undefined,F0} x set in {undefined,F5} x enumerable x configurable: 41 states) x object extensible or not x descriptor = shape x enumerable x configurable in {absent,true,false}, shape = generic | value in {absent,1,NaN,-0,+0} x writable in {absent,true,false} | get in {absent,undefined,F0,F2} x set in {absent,undefined,F5,F2} | 4 contradictory data+accessor mixes (34 shapes, 306 descriptors), i.e. 41 x 2 x 306 = 25092 cases; each runs create, [preventExtensions], Object.defineProperty, then an assignment and a delete as behavioural probes, with all observations compared after every step. thorough = the complete product split over the shards (exhaustive); quick = a uniform random sample. non-trivial = the property already exists or the object is not extensible; distinct by (state, descriptor)",
 	Quick: 2000, Thorough: 0,
 	Gen: func(t *rapid.T) tableCase {
 		curs := tblCurrents()
